@@ -674,7 +674,7 @@ class SymDatetime(datetime):
             raise Unsupported("SymDatetime.replace(%s)" % ",".join(sorted(kw)))
         tz = kw["tzinfo"]
         if tz is None:
-            raise Unsupported("naive symbolic datetime")
+            return SymNaive(self._local_us())
         if isinstance(tz, _SymTz):
             newoff = tz.off
         else:
@@ -731,6 +731,67 @@ class SymDatetime(datetime):
 
 
 _block_inherited(SymDatetime, datetime, {"eval", "concrete", "min", "max", "resolution"})
+
+
+class SymNaive(datetime):
+    """naive (tz-less) symbolic datetime: a wall-clock reading in microseconds since 1970-01-01T00:00 of that clock;
+    only ordering against other naive datetimes is modelled"""
+
+    def __new__(cls, local_us):
+        self = datetime.__new__(cls, 2000, 1, 1)
+        self.lus = local_us
+        return self
+
+    @staticmethod
+    def _val(o):
+        if isinstance(o, SymNaive):
+            return o.lus
+        if isinstance(o, SymDatetime):
+            raise TypeError("can't compare offset-naive and offset-aware datetimes")
+        if isinstance(o, datetime):
+            if o.tzinfo is not None:
+                raise TypeError("can't compare offset-naive and offset-aware datetimes")
+            return Poly.const((o - datetime(1970, 1, 1)) // timedelta(microseconds=1))
+        return None
+
+    def _cmp(self, op, o):
+        u = SymNaive._val(o)
+        if u is None:
+            if op == "==":
+                return False
+            raise TypeError("can't compare datetime with %s" % type(o).__name__)
+        return _c(self.lus, op, u)
+
+    def __lt__(self, o):
+        return self._cmp("<", o)
+
+    def __le__(self, o):
+        return self._cmp("<=", o)
+
+    def __gt__(self, o):
+        return self._cmp(">", o)
+
+    def __ge__(self, o):
+        return self._cmp(">=", o)
+
+    def __eq__(self, o):
+        return self._cmp("==", o)
+
+    def __ne__(self, o):
+        return not self._cmp("==", o)
+
+    def __hash__(self):
+        raise Unsupported("hash of a symbolic datetime")
+
+    @property
+    def tzinfo(self):
+        return None
+
+    def date(self):
+        return SymDate(floordiv(self.lus, US_PER_DAY, "ord") + _EPOCH_ORD)
+
+
+_block_inherited(SymNaive, datetime, {"min", "max", "resolution"})
 
 
 class SymTime:
@@ -968,10 +1029,11 @@ def vf_combine(d, t, tzinfo=True):
     if not isinstance(d, SymDate):
         return _dt.datetime.combine(d, t) if tzinfo is True else _dt.datetime.combine(d, t, tzinfo=tzinfo)
     tz = t.tzinfo if tzinfo is True else tzinfo
-    if tz is None:
-        raise Unsupported("naive symbolic datetime (datetime.combine without tzinfo)")
     if isinstance(t, SymTime):
         raise Unsupported("datetime.combine with a symbolic time")
+    if tz is None:
+        tod0 = ((t.hour * 60 + t.minute) * 60 + t.second) * 10**6 + t.microsecond
+        return SymNaive((d.o - _EPOCH_ORD).scale(US_PER_DAY) + tod0)
     off = tz.utcoffset(None) // timedelta(minutes=1)
     tod = ((t.hour * 60 + t.minute) * 60 + t.second) * 10**6 + t.microsecond
     us = (d.o - _EPOCH_ORD).scale(US_PER_DAY) + tod - off * US_PER_MIN
